@@ -34,7 +34,10 @@ type c16Scale struct {
 	// How the library object is built: 0 keyed literal incl. Clamp; 1 literal
 	// then SetClamp(c); 2 literal, SetClamp(!c), SetClamp(c); 3 (Log with
 	// Min<Max, else as 1) NewLog(Min,Max,10) then SetClamp(c); 4 same with
-	// the arguments of NewLog reversed.
+	// the arguments of NewLog reversed. 5/6: the object first describes ANOTHER
+	// domain (5: built by NewLog / literal, 6: additionally used once for
+	// Map and Unmap), then its exported Min/Max fields are assigned the case's
+	// domain: a scale must follow its current Min/Max (no stale derived state).
 	How int `json:"how"`
 }
 
@@ -88,6 +91,39 @@ func c16Build(w *mon.W, sc c16Scale, bad func(kind, msg string)) (q scale.Quanti
 	min, max := float64(sc.Min), float64(sc.Max)
 	name := c16Name(sc)
 	how := sc.How
+	if how >= 5 {
+		// history: other domain first, then the fields are re-assigned
+		w.Hit("domain-reassigned-after-construction")
+		var obj scale.Quantitative
+		if sc.Log {
+			sign := 1.0
+			if min < 0 {
+				sign = -1
+			}
+			s, err := scale.NewLog(sign*3, sign*7e5, 10)
+			if err != nil {
+				bad("newlog-reject", fmt.Sprintf("NewLog(%v,%v,10) rejected: %v", sign*3, sign*7e5, err))
+				return nil, false
+			}
+			obj = &s
+		} else {
+			obj = &scale.Linear{Min: -3, Max: 11}
+		}
+		if how == 6 {
+			if p, v := mon.Call(func() { obj.Map(5); obj.Unmap(0.25) }); p {
+				bad("panic", fmt.Sprintf("Map/Unmap on the initial domain panicked: %v", v))
+				return nil, false
+			}
+		}
+		switch o := obj.(type) {
+		case *scale.Log:
+			o.Min, o.Max = min, max
+		case *scale.Linear:
+			o.Min, o.Max = min, max
+		}
+		obj.SetClamp(sc.Clamp)
+		return obj, true
+	}
 	if how >= 3 && !(sc.Log && min < max) {
 		how = 1
 	}
@@ -669,7 +705,7 @@ func c16Run(r *mon.Run) {
 		"Log domains with ln|Max|-ln|Min| <= 8eps(1+|ln Min|+|ln Max|) are unresolvable in double precision logarithms: Map values there are counted ambiguous and not judged",
 		"Unmap outside [0,1] of a clamping scale is undefined (scale.Quantitative) and not judged; a clamping Log may return NaN or a confined value for zero/wrong-sign x",
 		"NewLog is exercised with finite arguments only")
-	r.Gate("Linear:reversed", "Log:reversed", "Log:negative", "Log:negative-reversed",
+	r.Gate("domain-reassigned-after-construction", "Linear:reversed", "Log:reversed", "Log:negative", "Log:negative-reversed",
 		"Linear:degenerate", "Log:degenerate", "Linear:near-degenerate", "Log:near-degenerate",
 		"Linear:clamp-low", "Linear:clamp-high", "Log:clamp-low", "Log:clamp-high",
 		"Linear:beyond-domain", "Log:beyond-domain", "Linear:unmap-beyond-[0,1]", "Log:unmap-beyond-[0,1]",
@@ -691,7 +727,7 @@ func c16Run(r *mon.Run) {
 	r.Parallel("linear", r.Pick(6000, 60000), func(w *mon.W, i int) {
 		rng := w.Rng
 		min, max := c16Domain(rng, i, false)
-		sc := c16Scale{Min: mon.F(min), Max: mon.F(max), Clamp: (i/8)%2 == 1, How: rng.Intn(3)}
+		sc := c16Scale{Min: mon.F(min), Max: mon.F(max), Clamp: (i/8)%2 == 1, How: rng.PickI(0, 1, 2, 5, 6)}
 		xs := c16Points(rng, false, min, max, 100)
 		xs = append(xs, 0, rng.Sign()*c16Mag(rng))
 		c16Judge(w, c16Case{Kind: "scale", A: sc, Xs: mon.Fs(xs), Ys: mon.Fs(ys(rng))})
@@ -700,7 +736,7 @@ func c16Run(r *mon.Run) {
 	r.Parallel("log", r.Pick(6000, 60000), func(w *mon.W, i int) {
 		rng := w.Rng
 		min, max := c16Domain(rng, i, true)
-		sc := c16Scale{Log: true, Min: mon.F(min), Max: mon.F(max), Clamp: (i/8)%2 == 1, How: rng.Intn(5)}
+		sc := c16Scale{Log: true, Min: mon.F(min), Max: mon.F(max), Clamp: (i/8)%2 == 1, How: rng.Intn(7)}
 		xs := c16Points(rng, true, min, max, 100)
 		s := math.Copysign(1, min)
 		xs = append(xs, s*c16ClipX(rng.LogUniform(1e-14, 1e14)), s*1e-14, s*1e14,
@@ -716,7 +752,7 @@ func c16Run(r *mon.Run) {
 			for min == max {
 				min, max = c16Domain(rng, 0, isLog)
 			}
-			return c16Scale{Log: isLog, Min: mon.F(min), Max: mon.F(max), Clamp: clamp, How: rng.Intn(5)}
+			return c16Scale{Log: isLog, Min: mon.F(min), Max: mon.F(max), Clamp: clamp, How: rng.Intn(7)}
 		}
 		S := mk(i&1 == 1, i&4 == 4)
 		D := mk(i&2 == 2, i&8 == 8)
